@@ -250,6 +250,36 @@ fn enrich(rng: &mut Rng, rec: &mut WorldRecords) {
     }
 }
 
+/// inline references must name exactly one entry *after* all enrichment: demote ambiguous ones to numeric
+fn disambiguate(rec: &mut WorldRecords) {
+    let same = |a: &Entry, b: &Entry| a.surface == b.surface && a.pos == b.pos && a.reading == b.reading;
+    let sys = rec.system.clone();
+    for e in rec.system.entries.iter_mut() {
+        for r in e.split_a.iter_mut().chain(e.split_b.iter_mut()) {
+            if r.style == RefStyle::Inline && sys.entries.iter().filter(|x| same(x, &sys.entries[r.index])).count() != 1 {
+                r.style = RefStyle::Num;
+            }
+        }
+    }
+    for u in rec.users.iter_mut() {
+        let snap = u.clone();
+        for e in u.entries.iter_mut() {
+            for r in e.split_a.iter_mut().chain(e.split_b.iter_mut()) {
+                if r.style == RefStyle::Inline && r.dic == 0 {
+                    let t = &sys.entries[r.index];
+                    let in_user = snap.entries.iter().any(|x| same(x, t));
+                    let in_sys = sys.entries.iter().filter(|x| same(x, t)).count();
+                    // the compiled system dictionary is searched by headword
+                    let by_headword = sys.entries.iter().filter(|x| x.headword == t.surface && x.pos == t.pos).count();
+                    if in_user || in_sys != 1 || t.headword != t.surface || by_headword != 1 {
+                        r.style = RefStyle::Num;
+                    }
+                }
+            }
+        }
+    }
+}
+
 impl Engine for RoundTripSim {
     type Case = RtCase;
     fn name(&self) -> &'static str {
@@ -270,6 +300,7 @@ impl Engine for RoundTripSim {
         let opts = WorldGenOpts { max_users: 2, max_rows: 30, full_plugins: false };
         let (spec, mut rec) = gen_world(&mut rng, &opts);
         enrich(&mut rng, &mut rec);
+        disambiguate(&mut rec);
         let mut placements = vec![];
         let np = 2 + rng.below(2);
         for i in 0..np {
